@@ -14,5 +14,5 @@ func main() {
 	ffsm.Prefix = ffsm.Preloaded()
 	ffsm.QuickDepth, ffsm.ThoroughDepth = 4, 6
 	os.Exit(ffsm.Main("C07", map[string]bool{"state-not-fold-of-log": true, "commit-offset-ahead-of-log": true, "harness-setup": true, "panic": true},
-		"every sequence of follower protocol events (13-event alphabet) up to max_depth from a preloaded start state (NewTerm, two appends, the first applied), replayed from scratch on a real follower controller; after every event the database must equal the fold of the entries the node holds up to the commit offset stored in it, and must not be ahead of log and snapshot"))
+		"every sequence of follower protocol events (14-event alphabet) up to max_depth from a preloaded start state (NewTerm, two appends, the first applied), replayed from scratch on a real follower controller; after every event the database must equal the fold of the entries the node holds up to the commit offset stored in it, and must not be ahead of log and snapshot"))
 }
